@@ -418,6 +418,9 @@ theorem longKeyScan_none (k : Str) (h : longKeyScan k = none) : '=' ∉ k := by
   | nil => simp
   | cons c r ih =>
     unfold longKeyScan at h
+    by_cases h0 : outOfRange C16.keyCharRange c = true
+    · simp [h0] at h
+    simp only [h0, Bool.false_eq_true, if_false] at h
     by_cases h1 : (c == '=') = true
     · simp [h1] at h
     · simp only [h1, Bool.false_eq_true, if_false] at h
